@@ -12,6 +12,8 @@ from fractions import Fraction
 import numpy as np
 
 import importlib
+import json
+import os
 import types
 
 import kappadata.wrappers as _w
@@ -39,7 +41,7 @@ ASSUMPTIONS = [
 ]
 MONITORS = ["selection_checked", "partition_checked", "seed_differential_checked", "ctor_step_budget_runs"]
 
-KINDS = ["classfilter", "percent", "percent_partition", "subset_index", "subset_percent", "subset_partition", "shuffle",
+KINDS = ["classfilter", "percent", "percent_partition", "subset_index", "subset_indices", "subset_percent", "subset_partition", "shuffle",
          "sort", "intra", "repeat", "over_multiply", "over_exact", "fewshot", "classwise_index", "classwise_percent",
          "classwise_partition"]
 
@@ -106,7 +108,7 @@ def gen_cases(run):
     rng = run.rng
     for i in range(n):
         k = KINDS[i % len(KINDS)] if i < 4 * len(KINDS) else rng.choice(KINDS)
-        unl = k in ("over_multiply", "classfilter", "shuffle", "repeat", "percent", "subset_index", "subset_percent",
+        unl = k in ("over_multiply", "classfilter", "shuffle", "repeat", "percent", "subset_index", "subset_indices", "subset_percent",
                     "classwise_index", "classwise_percent", "classwise_partition")
         lay = _layout(rng, allow_unlabeled=unl, min_n=1 if k == "repeat" else 0)
         nn = lay["n"]
@@ -146,6 +148,11 @@ def gen_cases(run):
                         p=_pct(rng, nn) if trap is None else trap, c=rng.random() < 0.5)
             if trap is not None:
                 spec["t"] = max(spec["t"], trap); spec["f"] = min(spec["f"], trap)
+        elif k == "subset_indices":
+            # explicit indices (also negative ones) as list / tuple / int64 ndarray / long tensor; the same container object is then reused for a
+            # second wrapper over a dataset of another length
+            m = rng.randint(0, min(8, nn + 2)) if nn > 0 else 0
+            spec.update(idx=[rng.randint(-nn, nn - 1) for _ in range(m)] if nn > 0 else [], container=rng.choice(["list", "tuple", "ndarray", "tensor"]), extra=rng.randint(1, 9))
         elif k == "subset_index":
             a = rng.randint(0, nn)
             b = rng.randint(a, nn + 3)
@@ -241,6 +248,65 @@ def _is_range(ids):
     return all(ids[i + 1] == ids[i] + 1 for i in range(len(ids) - 1))
 
 
+_XPROC = []   # (item, ids) of seeded selections of this run, recomputed in a fresh interpreter by finalize()
+
+
+def plain_selection(item):
+    """child side of the cross-interpreter clause: the leaf indices a seeded wrapper selects"""
+    lay = item["layout"]
+    ds = Leaf(lay["n"], tag="L", classes=lay["classes"], n_classes=lay["ncls"])
+    k, seed, P = item["kind"], item["seed"], item["params"]
+    if k == "fewshot":
+        w = kdw.FewshotWrapper(ds, num_shots=P["shots"], seed=seed)
+    elif k == "shuffle":
+        w = kdw.ShuffleWrapper(ds, seed=seed)
+    elif k == "intra":
+        w = kdw.IntraClassShuffleWrapper(ds, seed=seed)
+    else:
+        raise ValueError(k)
+    return [w.getitem_x(i)[1] for i in range(len(w))]
+
+
+def _note_seeded(run, spec, lay, ids, params=None):
+    if len(_XPROC) < 48 and lay.get("inner_shuffle") is None and lay["n"] <= 60:
+        _XPROC.append(({"kind": spec["kind"], "layout": {"n": lay["n"], "ncls": lay["ncls"], "classes": list(lay["classes"])}, "seed": spec["seed"], "params": params or {}}, list(ids)))
+
+
+def finalize(run):
+    """'the selection is a function of the constructor arguments and seed only' - also in another interpreter instance (other hash salt,
+    other process-global RNG states): the seeded selections recorded in this run are recomputed in a child interpreter"""
+    _xproc_compare(run, _XPROC)
+    del _XPROC[:]
+
+
+def _xproc_compare(run, _XPROC):
+    import subprocess
+    import sys
+    if not _XPROC:
+        return
+    items = [it for it, _ in _XPROC]
+    env = dict(os.environ, PYTHONHASHSEED=str(1 + run.seed % 7), PYTHONPATH=os.pathsep.join([str(core.REPO), str(core.VERIF)]), OMP_NUM_THREADS="1")
+    try:
+        p = subprocess.run([sys.executable, "-m", "kdv.h03_child"], input=json.dumps({"items": items}), capture_output=True, text=True, timeout=600, cwd=str(core.VERIF), env=env)
+        line = next((ln for ln in p.stdout.splitlines() if ln.startswith("KDV03RESULT ")), None)
+        res = json.loads(line[len("KDV03RESULT "):]) if line else None
+    except Exception as e:  # timeout, crash of the child: nothing was compared
+        res = None
+        run.notes["cross_interpreter_child"] = f"{type(e).__name__}: {e}"[:300]
+    if not res or "results" not in res:
+        run.notes.setdefault("cross_interpreter_child", "no result from the child interpreter (not compared)")
+        return
+    for (item, ids), r in zip(_XPROC, res["results"]):
+        if "ids" not in r:
+            run.count("cross_interpreter_child_errors")
+            continue
+        run.count("cross_interpreter_selections_compared")
+        if r["ids"] != ids:
+            run.violation(f"{item['kind']}:not-reproducible-across-interpreters",
+                          f"{item['kind']} wrapper with seed {item['seed']}, params {item['params']} on classes {_s(item['layout']['classes'])}: this interpreter selects {_s(ids)}, "
+                          f"a fresh interpreter (PYTHONHASHSEED={res.get('hashseed')}) selects {_s(r['ids'])}", {"kind": "xproc", "item": item, "ids": ids})
+
+
 def _differential(run, spec, build, what):
     """seed-only dependence: same args under two different global RNG states"""
     GlobalRngSentinel.seed_all(spec["g"][0])
@@ -263,6 +329,8 @@ def _differential(run, spec, build, what):
 # ------------------------------------------------------------------------------------------------ case execution
 def run_case(run, spec):
     k = spec["kind"]
+    if k == "xproc":  # replay of a cross-interpreter witness: this interpreter's selection is recomputed, then compared with a child's
+        return _xproc_compare(run, [(spec["item"], plain_selection(spec["item"]))])
     lay = spec["layout"]
     _INV[0] = None
     if spec.get("inner_shuffle") is not None and lay["n"] > 0:
@@ -361,6 +429,42 @@ def run_case(run, spec):
             V(key, f"{name} on {n} samples (classes {_s(cls)}): lower part {_s(a)}, upper part {_s(b)} do not partition range({n})")
         return
 
+    if k == "subset_indices":
+        import torch
+        raw = list(spec["idx"])
+        mk = {"list": list, "tuple": tuple, "ndarray": lambda v: np.array(v, dtype=np.int64), "tensor": lambda v: torch.tensor(v, dtype=torch.long)}[spec["container"]]
+        given = mk(raw)
+        ds = _leaf(lay)
+        ok, w = _construct(run, lambda: kdw.SubsetWrapper(ds, indices=given), n, f"SubsetWrapper(indices={raw} as {spec['container']})")
+        if not ok:
+            return
+        ids = _ids(run, w, "SubsetWrapper(indices=...)")
+        if ids is None:
+            return
+        ok_sel()
+        want = [i % n for i in raw] if n > 0 else []
+        if ids != want:
+            V("subset_indices:selection", f"SubsetWrapper(indices={raw} as {spec['container']}) on {n} samples exposes {_s(ids)}, the indices name {_s(want)}")
+            return
+        if [int(v) for v in given] != raw:
+            V("subset_indices:argument-modified", f"SubsetWrapper(indices=...) changed the caller's {spec['container']}: {raw} -> {[int(v) for v in given]}")
+            return
+        # the same container object for a second wrapper over a LONGER dataset: negative entries count from that dataset's end
+        n2 = n + spec["extra"]
+        lay2 = {"n": n2, "ncls": lay["ncls"], "classes": list(lay["classes"]) + [0] * spec["extra"]}
+        inv_saved, _INV[0] = _INV[0], None
+        ds2 = _leaf(lay2)
+        ok, w2 = _construct(run, lambda: kdw.SubsetWrapper(ds2, indices=given), n2, f"second SubsetWrapper(indices=<same {spec['container']} object>)")
+        if ok:
+            ids2 = _ids(run, w2, "second SubsetWrapper(indices=...)")
+            if ids2 is not None:
+                run.count("reused_index_containers_checked")
+                want2 = [i % n2 for i in raw]
+                if ids2 != want2:
+                    V("subset_indices:reused-container", f"a second SubsetWrapper over {n2} samples built from the same {spec['container']} object {raw} (first used over {n} samples) exposes {_s(ids2)}, the indices name {_s(want2)}")
+        _INV[0] = inv_saved
+        return
+
     if k == "subset_index":
         kw = {}
         if spec["use_a"]:
@@ -410,6 +514,7 @@ def run_case(run, spec):
             if r is None:
                 return
             ids = r[1]
+            _note_seeded(run, spec, lay, ids)
         else:
             ok, w = _construct(run, lambda: kdw.ShuffleWrapper(ds), n, "ShuffleWrapper()")
             if not ok:
@@ -447,6 +552,7 @@ def run_case(run, spec):
             if r is None:
                 return
             ids = r[1]
+            _note_seeded(run, spec, lay, ids)
         else:
             ok, w = _construct(run, lambda: kdw.IntraClassShuffleWrapper(ds), n, "IntraClassShuffleWrapper()")
             if not ok:
@@ -528,6 +634,7 @@ def run_case(run, spec):
         if r is None:
             return
         ids = r[1]
+        _note_seeded(run, spec, lay, ids, {"shots": spec["shots"]})
         counts = Counter(cls)
         ok_sel()
         got = Counter(cls[i] for i in ids)
